@@ -24,7 +24,7 @@ ASSUMPTIONS = [
 ]
 TIMEOUTS = {"quick": (600, 30), "thorough": (3000, 60)}
 POOL = ["a", "ab", "b"]
-PATTERNS = ["a", "a.*", ".*b", "[ab]+", "x", ("A.*", re.IGNORECASE), "pred:len2", "pred:never"]
+PATTERNS = ["a", "a.*", ".*b", "[ab]+", "x", "a|b", "b|a.", ("A.*", re.IGNORECASE), ("B|A", re.IGNORECASE), "pred:len2", "pred:never"]
 
 
 def BOUNDS(tier):
